@@ -354,11 +354,11 @@ func (cl *cluster) serveRealAgent(n int, w http.ResponseWriter, method, path str
 	}
 	h := cl.agents[n]
 	if h == nil {
-		span := 100
+		span := portsPerNode
 		if cl.cfg.AgentPorts > 0 {
 			span = cl.cfg.AgentPorts
 		}
-		base := portBase() + 100*n
+		base := portBase() + portsPerNode*n
 		h = agent.NewRouter(agent.NewServer(base, base+span-1))
 		cl.agents[n] = h
 	}
@@ -388,11 +388,11 @@ func (cl *cluster) serveRealAgent(n int, w http.ResponseWriter, method, path str
 		// a receiver whose sender has reported a complete transfer is on its way out: wait until it is gone (the agent's
 		// bookkeeping of it runs on another goroutine), so that the ports handed out do not depend on a race; a receiver
 		// whose sender died stays
-		span := 100
+		span := portsPerNode
 		if cl.cfg.AgentPorts > 0 {
 			span = cl.cfg.AgentPorts
 		}
-		base := portBase() + 100*n
+		base := portBase() + portsPerNode*n
 		deadline := time.Now().Add(30 * time.Second)
 		for port := range cl.finishing {
 			if port < base || port >= base+span {
@@ -557,22 +557,35 @@ var portBaseOnce sync.Once
 var portBaseVal int
 var portLockFile *os.File // kept referenced: a collected *os.File closes its descriptor and drops the lock
 
+// Every worker process that runs real sync agents takes a block of loopback ports of its own (an flock on a file in
+// /tmp/verif-portlocks, held until the process ends): portsPerNode ports for each of up to five nodes, below the
+// ephemeral range.  Several checks may run at once; a worker that finds every block taken waits for one.
+const (
+	portsPerNode = 20
+	portBlock    = 5 * portsPerNode
+	portFirst    = 10000
+	portBlocks   = (32000 - portFirst) / portBlock
+)
+
 func portBase() int {
 	portBaseOnce.Do(func() {
 		os.MkdirAll("/tmp/verif-portlocks", 0777)
-		for k := 0; k < 29; k++ { // blocks below the ephemeral port range (32768+)
-			f, err := os.OpenFile(fmt.Sprintf("/tmp/verif-portlocks/%d.lock", k), os.O_CREATE|os.O_RDWR, 0666)
-			if err != nil {
-				continue
+		for try := 0; try < 3000; try++ {
+			for k := 0; k < portBlocks; k++ {
+				f, err := os.OpenFile(fmt.Sprintf("/tmp/verif-portlocks/b%d.lock", k), os.O_CREATE|os.O_RDWR, 0666)
+				if err != nil {
+					continue
+				}
+				if syscall.Flock(int(f.Fd()), syscall.LOCK_EX|syscall.LOCK_NB) == nil {
+					portBaseVal = portFirst + portBlock*k // the descriptor stays open: the lock is held until the process ends
+					portLockFile = f
+					return
+				}
+				f.Close()
 			}
-			if syscall.Flock(int(f.Fd()), syscall.LOCK_EX|syscall.LOCK_NB) == nil {
-				portBaseVal = 21000 + 400*k // the descriptor stays open: the lock is held until the process ends
-				portLockFile = f
-				return
-			}
-			f.Close()
+			time.Sleep(100 * time.Millisecond)
 		}
-		portBaseVal = 21000 + 400*28
+		panic("harness: no free block of loopback ports for the real sync agents (/tmp/verif-portlocks)")
 	})
 	return portBaseVal
 }
@@ -842,11 +855,11 @@ func (cl *cluster) unrelatedTransfers(n, upTo int) {
 		}
 		rec := httptest.NewRecorder()
 		if cl.agents[n] == nil {
-			span := 100
+			span := portsPerNode
 			if cl.cfg.AgentPorts > 0 {
 				span = cl.cfg.AgentPorts
 			}
-			base := portBase() + 100*n
+			base := portBase() + portsPerNode*n
 			if cl.agents == nil {
 				cl.agents = map[int]http.Handler{}
 			}
